@@ -47,6 +47,7 @@ import (
 	"github.com/oxia-db/oxia/server/wal"
 
 	"verif/harness/internal/hx"
+	"verif/harness/internal/kvsafe"
 )
 
 func init() {
@@ -144,7 +145,7 @@ func newLeaderEnv(o *hx.Out, shard int64, tag string) *leaderEnv {
 	l := &leaderEnv{o: o, tag: tag, shard: shard, failed: map[string]bool{}}
 	l.dir = filepath.Join(base, fmt.Sprintf("h_db13_%d_%d", os.Getpid(), c13EnvCounter))
 	var err error
-	l.kvf, err = kv.NewPebbleKVFactory(&kv.FactoryOptions{DataDir: filepath.Join(l.dir, "db"), CacheSizeMB: 1, InMemory: leaderEnvInMemory})
+	l.kvf, err = kvsafe.New(&kv.FactoryOptions{DataDir: filepath.Join(l.dir, "db"), CacheSizeMB: 1, InMemory: leaderEnvInMemory})
 	hx.Must(err)
 	l.walf = wal.NewWalFactory(&wal.FactoryOptions{BaseWalDir: filepath.Join(l.dir, "wal"), Retention: time.Hour, SegmentSize: 1 << 20, SyncData: false})
 	return l
@@ -297,7 +298,7 @@ func (l *leaderEnv) follower(term int64) string {
 	l.leading = false
 	entries := l.readLog()
 	fdir := filepath.Join(l.dir, "follower")
-	kvf, err := kv.NewPebbleKVFactory(&kv.FactoryOptions{DataDir: filepath.Join(fdir, "db"), CacheSizeMB: 1, InMemory: true})
+	kvf, err := kvsafe.New(&kv.FactoryOptions{DataDir: filepath.Join(fdir, "db"), CacheSizeMB: 1, InMemory: true})
 	hx.Must(err)
 	walf := wal.NewWalFactory(&wal.FactoryOptions{BaseWalDir: filepath.Join(fdir, "wal"), Retention: time.Hour, SegmentSize: 1 << 20, SyncData: false})
 	fc, err := server.NewFollowerController(c13SrvConfig, c13Ns, l.shard, walf, kvf)
